@@ -49,6 +49,8 @@ from unified_planning.model import (
     MaximizeExpressionOnFinalState,
 )
 from unified_planning.model.problem_kind_versioning import LATEST_PROBLEM_KIND_VERSION
+from unified_planning.model.fluent import get_all_fluent_exp
+from unified_planning.model.types import _RealType
 from unified_planning.engines.results import (
     ValidationResult,
     ValidationResultStatus,
@@ -616,6 +618,32 @@ class TimeTriggeredPlanValidator(engines.engine.Engine, mixins.PlanValidatorMixi
                 )
             )
             next_id += 1
+
+        # bounded numeric types are invariants too, as in the UPSequentialSimulator
+        for fluent in problem.fluents:
+            f_type = fluent.type
+            if not (f_type.is_int_type() or f_type.is_real_type()):
+                continue
+            lower_bound = cast(_RealType, f_type).lower_bound
+            upper_bound = cast(_RealType, f_type).upper_bound
+            if lower_bound is None and upper_bound is None:
+                continue
+            for f_e in get_all_fluent_exp(problem, fluent):
+                bounds = []
+                if lower_bound is not None:
+                    bounds.append(em.LE(lower_bound, f_e))
+                if upper_bound is not None:
+                    bounds.append(em.LE(f_e, upper_bound))
+                for bound in bounds:
+                    durative_conditions.append(
+                        (
+                            (Fraction(0), plan_duration, False),
+                            next_id,
+                            bound,
+                            None,
+                        )
+                    )
+                    next_id += 1
 
         time = Fraction(0)
         last_state = UPState(problem.explicit_initial_values, problem)
